@@ -489,3 +489,23 @@ Definition place (a : fnabi) : placement :=
                | _ => []
                end;
      pl_args := combine (map snd (fa_args a)) (split_locs pms arg_locs) |}.
+
+(* ------------------------------------ bytes of the argument object that are READ *)
+(* get_arg_list: a Cast loads its words from the struct's address (off = 0; off +=
+   ty.bytes()), an Indirect(Some sz) hands the address to Cranelift's StructArgument copy,
+   which reads sz bytes.  [caller_read pm] = number of bytes read from the start of the
+   source object, as the code is. *)
+Definition sum_bytes (tys : list clty) : N := fold_right (fun t acc => clty_bytes t + acc) 0 tys.
+
+Definition caller_read (pm : passmode) : N :=
+  match pm with
+  | Cast tys => sum_bytes tys
+  | Indirect (Some sz) => sz
+  | _ => 0
+  end.
+
+(* fix candidate C19-1 / C19-2: when more bytes would be read than the object has, the
+   object is first copied (exactly `size` bytes) into a padded temporary and the words /
+   the by-value copy are taken from there *)
+Definition caller_read_fixed (pm : passmode) (size : N) : N :=
+  let n := caller_read pm in if size <? n then size else n.
